@@ -11,7 +11,7 @@ def run(tier):
     sp = splitsmt.SplitTheta()
     SS = sp.SS.StatementSplitter
     chk.functions += [src_ref(SS._change_splitlevel), src_ref(SS._reset), src_ref(SS.process), src_ref(SS.__init__)]
-    n = 16 if tier == 'quick' else 26
+    n = 16 if tier == 'quick' else 22
     chk.bounds = dict(tokens=n, theta=sp.K, theta_classes=sp.groups, paren_depth_max=3,
                       outside='scripts longer than the bound; lexemes outside Theta')
     chk.states = n * sp.K
